@@ -112,6 +112,10 @@ Definition cmd_transform_all (c0 : cfg) (o0 : obj) (answers : list (option (cfg 
   | _, _ => SL [SI 5]
   end.
 
+(* cmd 32: all_leaves(xs) and tree_is_leaf of every element *)
+Definition cmd_all_leaves (c : cfg) (xs : list obj) : sexp :=
+  SL [SI 0; enc_bool (all_leaves c xs); SL (map (fun x => enc_bool (tree_is_leaf c x)) xs)].
+
 (* cmd 28: repr(treespec) as the token list of ToStringImpl (Repr.v) *)
 Definition lit_code (l : Repr.lit) : Z :=
   match l with
@@ -705,6 +709,11 @@ Definition run (s : sexp) : sexp :=
                           end) answers with
     | Some c', Some o', Some answers' => cmd_transform_all c' o' answers'
     | _, _, _ => bad
+    end
+  | SL [SI 32; c; SL xs] =>
+    match dec_cfg c, omapM dec_obj xs with
+    | Some c', Some xs' => cmd_all_leaves c' xs'
+    | _, _ => bad
     end
   | SL [SI 25; c; p; f] =>
     match dec_cfg c, dec_obj p, dec_obj f with
